@@ -210,8 +210,13 @@ Definition compile_hardcode (nm : names) (c : cfg) (x : score) (body : Z -> list
 Inductive stmt :=
 | SSay (t : string)
 | SBreak
+| SSet (x : score) (z : Z)          (* `$x = z;`  (so that a case body can change the switched score) *)
+| SCall (f : string)                (* `f();`     a call of the user function f of the same pack *)
 | SSwitch (x : score) (entries : list (label * list stmt))
-| SHard (x : score) (begin_at count : Z) (tmpl : list (string * string)).  (* say "<pre>$i<post>"; … *)
+| SHard (x : score) (begin_at count : Z) (tmpl : list (string * string)) (tail : list stmt).
+    (* Hardcode.switch(x, (idx)=>{ say "<pre>$idx<post>"; … <tail> }, …): the arrow function's text is
+       instantiated and compiled once per index, in order, so the statements of `tail` (which do not
+       mention the index) are compiled — and take their counters — once per index *)
 
 Record cstate := mkCS { cs_switch : Z; cs_hard : Z; cs_id : Z }.
 Definition cs0 : cstate := mkCS 0 0 0.
@@ -256,10 +261,31 @@ Fixpoint compile_items (fuel : nat) (nm : names) (c : cfg) (l : list stmt) (st :
                 Ok (ICmds cmds, fs1 ++ fs2, mkCS pc' (cs_hard st1) sid')
               end
             end
-          | SHard x b cnt tmpl =>
-            match compile_hardcode nm c x (hard_body tmpl) b cnt (cs_hard st) (cs_id st) with
+          | SSet x z => Ok (ICmds [CSet x z], [], st)
+          | SCall g => Ok (ICmds [CCall (ns nm +++ ":" +++ g)], [], st)
+          | SHard x b cnt tmpl tail =>
+            (* the bodies first, one instance per index, in order *)
+            let fix go (ls : list Z) (st : cstate) : result (list (list cmd) * list func * cstate) :=
+                match ls with
+                | [] => Ok ([], [], st)
+                | i :: ls' =>
+                  match compile_items f nm c tail st with
+                  | Err e => Err e
+                  | Ok (its, fs1, st1) =>
+                    match go ls' st1 with
+                    | Err e => Err e
+                    | Ok (bs, fs2, st2) => Ok ((hard_body tmpl i ++ body_of its) :: bs, fs1 ++ fs2, st2)
+                    end
+                  end
+                end in
+            match go (hardcode_labels b cnt) st with
             | Err e => Err e
-            | Ok (cmds, fs, pc', sid') => Ok (ICmds cmds, fs, mkCS (cs_switch st) pc' sid')
+            | Ok (bodies, fs1, st1) =>
+              match compile_hardcode nm c x (fun i => nth (Z.to_nat (i - b)) bodies []) b cnt
+                                     (cs_hard st1) (cs_id st1) with
+              | Err e => Err e
+              | Ok (cmds, fs2, pc', sid') => Ok (ICmds cmds, fs1 ++ fs2, mkCS (cs_switch st1) pc' sid')
+              end
             end
           end in
       match one with
@@ -269,6 +295,22 @@ Fixpoint compile_items (fuel : nat) (nm : names) (c : cfg) (l : list stmt) (st :
         | Err e => Err e
         | Ok (its, fs2, st2) => Ok (it :: its, fs1 ++ fs2, st2)
         end
+      end
+    end
+  end.
+
+(* the user functions of a pack, compiled in source order with the counters threaded through *)
+Fixpoint compile_functions (fuel : nat) (nm : names) (c : cfg) (fl : list (string * list stmt)) (st : cstate)
+  : result (list func) :=
+  match fl with
+  | [] => Ok []
+  | (name, l) :: r =>
+    match compile_items fuel nm c l st with
+    | Err e => Err e
+    | Ok (its, fs, st1) =>
+      match compile_functions fuel nm c r st1 with
+      | Err e => Err e
+      | Ok more => Ok ((ns nm +++ ":" +++ name, body_of its) :: fs ++ more)
       end
     end
   end.
